@@ -27,6 +27,8 @@ def main():
         if only and x not in only:
             continue
         d = os.path.join(src, 'SEED', x)
+        if not os.path.isdir(d):
+            continue
         meta = json.load(open(os.path.join(d, 'meta.json')))
         pid = meta['property']
         wt = tempfile.mkdtemp(prefix='intake_', dir='/tmp')
